@@ -256,7 +256,7 @@ func doVolumeBasedDeletion(ingestNodeDir string, allowedVolumeGB uint64, deletio
 		if segMeta, ok := allEntries[i].(*structs.SegMeta); ok {
 			timeI = segMeta.LatestEpochMS
 		} else if metricMeta, ok := allEntries[i].(*structs.MetricsMeta); ok {
-			timeI = uint64(metricMeta.LatestEpochSec * 1000) // convert to milliseconds
+			timeI = uint64(metricMeta.LatestEpochSec) * 1000 // convert to milliseconds
 		} else {
 			return false
 		}
@@ -265,7 +265,7 @@ func doVolumeBasedDeletion(ingestNodeDir string, allowedVolumeGB uint64, deletio
 		if segMeta, ok := allEntries[j].(*structs.SegMeta); ok {
 			timeJ = segMeta.LatestEpochMS
 		} else if metricMeta, ok := allEntries[j].(*structs.MetricsMeta); ok {
-			timeJ = uint64(metricMeta.LatestEpochSec * 1000)
+			timeJ = uint64(metricMeta.LatestEpochSec) * 1000
 		} else {
 			return false
 		}
@@ -482,7 +482,7 @@ func doInodeBasedDeletion(ingestNodeDir string, deletionWarningCounter int) {
 		if segMeta, ok := allEntries[i].(*structs.SegMeta); ok {
 			timeI = segMeta.LatestEpochMS
 		} else if metricMeta, ok := allEntries[i].(*structs.MetricsMeta); ok {
-			timeI = uint64(metricMeta.LatestEpochSec * 1000)
+			timeI = uint64(metricMeta.LatestEpochSec) * 1000
 		} else {
 			log.Errorf("doInodeBasedDeletion: Unexpected entry type in allEntries: %T", allEntries[i])
 			return false
@@ -492,7 +492,7 @@ func doInodeBasedDeletion(ingestNodeDir string, deletionWarningCounter int) {
 		if segMeta, ok := allEntries[j].(*structs.SegMeta); ok {
 			timeJ = segMeta.LatestEpochMS
 		} else if metricMeta, ok := allEntries[j].(*structs.MetricsMeta); ok {
-			timeJ = uint64(metricMeta.LatestEpochSec * 1000)
+			timeJ = uint64(metricMeta.LatestEpochSec) * 1000
 		} else {
 			log.Errorf("doInodeBasedDeletion: Unexpected entry type in allEntries: %T", allEntries[j])
 			return false
